@@ -34,6 +34,9 @@ synchronisation.  Every entry is an assumption about a third-party API:
 * cel-go `Program.Eval`: programs are stateless and safe for concurrent evaluation; `Env.Compile/Check/Program`
   do not modify the environment (the lazily built checker is guarded by `sync.Once`);
 * `validator.(*Validate).Struct`: "Validate is designed to be thread-safe" (caches guarded internally);
+* go-jose `(*JSONWebKey).Thumbprint` (v4.0.4, jwk.go:388, reviewed): switches on the type of `k.Key`, formats the
+  public parameters (`big.Int.Bytes()` / `newFixedSizeBuffer` copy into new slices) and hashes the string; it assigns
+  neither to the receiver nor to the key it refers to;
 * `http.Client.Do` on a client built per call, response bodies, header maps of the response, gjson results,
   base64 encodings, jose builders: values owned by the call or immutable. -/
 def trustedExt : List String := [
@@ -47,6 +50,7 @@ def trustedExt : List String := [
   "(*github.com/google/cel-go/cel.Issues).Err",
   "(*net/http.Client).Do",
   "(*text/template.Template).Execute",
+  "(*github.com/go-jose/go-jose/v4.JSONWebKey).Thumbprint",
   "(github.com/dadrus/httpsig.Signer).Sign",
   "(github.com/go-jose/go-jose/v4/jwt.Builder).Claims",
   "(github.com/go-jose/go-jose/v4/jwt.Builder).Serialize",
